@@ -4,6 +4,7 @@
    Engine-level theorems (C05_causal_latest ...) are added by the engine model. *)
 From Coq Require Import List ZArith NArith Bool String Permutation.
 Require Import Mistral.Model.Ctx Mistral.Model.Publish Mistral.Proofs.CtxProofs Mistral.Proofs.PublishProofs.
+Require Import Mistral.Gen.CtxFacts Mistral.Proofs.CtxFactsProofs.
 Import ListNotations.
 Open Scope string_scope.
 
@@ -132,6 +133,36 @@ Theorem C05_upstream_latest_wins_flat : forall u1 t u2 k v,
   den_up (u1 ++ t :: u2) k = Some (Some v, getv k (cvers (out_of t))).
 Proof. exact upstream_latest_wins_flat. Qed.
 Print Assumptions C05_upstream_latest_wins_flat.
+
+(* ---- nested values: wherever no dict meets a non-dict (shape compatibility) the merge
+        is the same cell-wise merge at EVERY key path, and so is the whole upstream fold ---- *)
+Theorem C05_merge_pointwise_nested : forall l r ks,
+  goodn l -> goodn r -> shape_compat_ctx l r ->
+  den_path (merge_ctx l r) ks = dmerge (den_path l ks) (den_path r ks).
+Proof. exact den_path_merge_ctx. Qed.
+Print Assumptions C05_merge_pointwise_nested.
+
+Theorem C05_upstream_perm_nested : forall ups ups' ks,
+  Permutation ups ups' ->
+  Forall goodn (map out_of ups) -> pairwise_sc (map out_of ups) ->
+  pairwise_cf (cells_path ups ks) -> all_ok (cells_path ups ks) ->
+  den_up_path ups ks = den_up_path ups' ks.
+Proof. exact upstream_perm_nested. Qed.
+Print Assumptions C05_upstream_perm_nested.
+
+Theorem C05_upstream_latest_wins_nested : forall u1 t u2 ks o,
+  Forall goodn (map out_of (u1 ++ t :: u2)) -> pairwise_sc (map out_of (u1 ++ t :: u2)) ->
+  obs ks (VDict (cdata (out_of t))) = Some o ->
+  (forall t', In t' (u1 ++ u2) ->
+     (getv (path_str "" ks) (cvers (out_of t')) < getv (path_str "" ks) (cvers (out_of t)))%N) ->
+  den_up_path (u1 ++ t :: u2) ks = Some (Some o, getv (path_str "" ks) (cvers (out_of t))).
+Proof. exact upstream_latest_wins_nested. Qed.
+Print Assumptions C05_upstream_latest_wins_nested.
+
+(* ---- the source forms the model mirrors (regenerated from /repo on every run) ---- *)
+Theorem C05_source_facts : source_facts_statement.
+Proof. exact source_facts. Qed.
+Print Assumptions C05_source_facts.
 
 (* side conditions of the two theorems above are kept by the operations *)
 Theorem C05_good_preserved : forall c pub l r,
